@@ -290,6 +290,15 @@ func (c *bfn) lenTerm(v ssa.Value) (lin, bool) {
 			return lin{}, false
 		}
 		return base.add(lo, -1), true
+	case *ssa.Call:
+		// append(a, b...) : len = len(a) + len(b)
+		if b, ok := x.Call.Value.(*ssa.Builtin); ok && b.Name() == "append" && len(x.Call.Args) == 2 {
+			la, oka := c.lenTerm(x.Call.Args[0])
+			lb, okb := c.lenTerm(x.Call.Args[1])
+			if oka && okb {
+				return la.add(lb, 1), true
+			}
+		}
 	case *ssa.Const:
 		if x.Value != nil && x.Value.Kind().String() == "String" {
 			return linConst(int64(len(x.Value.ExactString()) - 2)), true
